@@ -70,6 +70,11 @@ theorem loopFloat_ok (A : FArith) (hA : GoodArith A) (size b : Nat) (hb : 2 ≤ 
     simp only [loopFloat]
     have hfs : A.rnd (size * S) = size * S := hA.fixInt size (by omega)
     rw [hfs, hA.dbl]
+    have hdiff : (if place = 0 then size * S else A.rnd (size * S - place)) = A.rnd (size * S - place) := by
+      split
+      · next h0 => subst h0; simp [hfs]
+      · rfl
+    rw [hdiff]
     split
     · next hc =>
       obtain ⟨hc1, hc2⟩ := hc
